@@ -46,6 +46,11 @@ def space_closure(prog, sc, node):
         return None, None
     ch = iter_chain(n[2][0])
     csc = Scope(prog, prog.fns[cid], closure_env(cl), ("elem", "S", ()), sc)
+    # upstream `filter(..)` closures of the same chain select the elements the term is computed for
+    csc.upstream_filters = []
+    for (a, c) in ch.steps:
+        if a == "filter" and closure_id_of(strip(c)) in prog.fns:
+            csc.upstream_filters.append(Scope(prog, prog.fns[closure_id_of(strip(c))], closure_env(strip(c)), ("elem", "S", ()), sc))
     return csc, ch
 
 
@@ -57,11 +62,17 @@ def predicate_by_value(ctx, rule, key, csc, fields, enums, expect, term_ref, lm,
     term_nodes = []
     for combo in itertools.product(*doms):
         at = TB.Atoms(dict(zip(names, combo)), enums)
+        selected = True
+        for fsc in getattr(csc, "upstream_filters", []):
+            fv = TB.eval_predicate(fsc, at)
+            if not isinstance(fv, bool):
+                raise AnalysisError("%s: cannot evaluate the upstream filter for %s: %s" % (key, combo, fv))
+            selected = selected and fv
         r = TB.eval_return(csc, at.value)
         if isinstance(r, tuple) and r and r[0] == "stuck":
             raise AnalysisError("%s: cannot evaluate closure for %s: %s" % (key, combo, r[1]))
         r = strip(r)
-        zero = (r[0] == "k" and float(r[1]) == 0.0) or (r[0] == "agg" and r[1].endswith("None"))
+        zero = (not selected) or (r[0] == "k" and float(r[1]) == 0.0) or (r[0] == "agg" and r[1].endswith("None"))
         want = expect(dict(zip(names, combo)))
         if (not zero) != want:
             bad.append("%s -> %s" % (dict(zip(names, combo)), "counted" if not zero else "not counted"))
@@ -80,6 +91,141 @@ def predicate_by_value(ctx, rule, key, csc, fields, enums, expect, term_ref, lm,
 def threshold_chain_of(prog, fn, var="tilt"):
     chain, default = TB.threshold_chain(fn)
     return chain, default
+
+
+def check_envelope_membership(ctx, prog, ep, root, rule="c11.scope"):
+    """WallProps.is_tenv as a truth table over (bounds, this space inside, adjacent space given / inside); shared by C11 and C08"""
+    # envelope membership: the value of WallProps.is_tenv as a function of (bounds, this space inside, adjacent space given, adjacent inside)
+    from ..mir import callee_name
+    bt = [v["name"] for v in prog.adt("bemodel::types::common::BoundaryType")["variants"]]
+    wlit = [(sc2, sc2.rvalue(s2["rv"]), b2, s2.get("ln")) for sc2 in root.all_scopes() for b2, i2, s2 in sc2.body.statements()
+            if s2["s"] == "assign" and s2["rv"]["r"] == "agg" and s2["rv"].get("adt", "").endswith("props::WallProps")]
+    ctx.require(len(wlit) == 1, "WallProps literal not found in EnergyProps::from")
+    wsc, wnode, wbb, wln = wlit[0]
+    tenv_node = strip(dict(zip(wnode[2], wnode[3]))["is_tenv"])
+
+    def make_atom(bnd, ti, hn, ni):
+        def atom(n):
+            n = strip(n)
+            if n[0] == "un" and n[1] == "Not":
+                v = atom(n[2])
+                return None if v is None else ("0" if v == "1" else "1")
+            if n[0] == "discr":
+                ln_ = leaf_name(strip(n[1])) or ""
+                if ln_.endswith(".bounds"):
+                    return str(bt.index(bnd))
+                if ln_.endswith(".next_to"):
+                    return "1" if hn else "0"
+            if n[0] == "call" and short_callee(n[1]) in ("is_some", "is_none") and n[2] and (leaf_name(strip(n[2][0])) or "").endswith(".next_to"):
+                return "1" if (hn == (short_callee(n[1]) == "is_some")) else "0"
+            # "is the space inside the envelope" lookups: map_or(false, ..) on a space lookup, or a local closure applied to a space id
+            if n[0] == "call" and (short_callee(n[1]) in ("map_or", "call", "is_some_and", "unwrap_or") or "{closure" in short_callee(n[1])):
+                full = show(n)
+                if "next_to" in full:
+                    return "1" if (hn and ni) else "0"
+                if ".space" in full:
+                    return "1" if ti else "0"
+            if n[0] == "call" and short_callee(n[1]) in ("ne", "eq") and len(n[2]) == 2:
+                a = atom(n[2][0])
+                b2_ = atom(n[2][1])
+                if a is not None and b2_ is not None:
+                    r = (a != b2_) if short_callee(n[1]) == "ne" else (a == b2_)
+                    return "1" if r else "0"
+                for x, y in ((strip(n[2][0]), strip(n[2][1])), (strip(n[2][1]), strip(n[2][0]))):
+                    if (leaf_name(x) or "").endswith(".bounds") and y[0] == "agg" and "::" in y[1]:
+                        r = (bnd == y[1].split("::")[-1]) == (short_callee(n[1]) == "eq")
+                        return "1" if r else "0"
+            if n[0] == "bin" and n[1] in ("Ne", "Eq", "BitAnd", "BitOr", "BitXor"):
+                a = atom(n[2])
+                b2_ = atom(n[3])
+                if a is not None and b2_ is not None:
+                    r = {"Ne": a != b2_, "Eq": a == b2_, "BitAnd": a == "1" and b2_ == "1", "BitOr": a == "1" or b2_ == "1", "BitXor": a != b2_}[n[1]]
+                    return "1" if r else "0"
+            if n[0] == "k" and n[1] in ("true", "false"):
+                return "1" if n[1] == "true" else "0"
+            return None
+        return atom
+
+    member = None
+    pool = []
+    if tenv_node[0] == "call" and short_callee(tenv_node[1]) == "contains" and tenv_node[2]:
+        # form A: a set of wall ids built by a filter chain over model.walls
+        recv = strip(tenv_node[2][0])
+        ctx.require(recv[0] == "call" and short_callee(recv[1]) == "collect" and (iter_chain(recv).source_name() or "") == "model.walls" and
+                    (leaf_name(strip(tenv_node[2][1])) or "").endswith("walls[].id"),
+                    "WallProps.is_tenv is a membership test, but not of the wall's id in a set collected from model.walls")
+        ch = iter_chain(recv)
+        fcl = [c for (a, c) in ch.steps if a == "filter"]
+        ctx.require(len(fcl) >= 1 and all(a in ("iter", "filter", "map", "collect", "copied", "cloned") for a, _ in ch.steps), "the envelope wall set is not a filter chain over model.walls (%s)" % ch.adaptors())
+        fscs = [Scope(prog, prog.fns[closure_id_of(strip(c))], closure_env(strip(c)), ("elem", "W", ()), root) for c in fcl]
+        pool = list(fscs)
+
+        def member(at):
+            got = True
+            for fsc in fscs:
+                r = TB.eval_return(fsc, at)
+                if isinstance(r, tuple) and r and r[0] == "stuck":
+                    raise AnalysisError("envelope membership: cannot evaluate %s" % (r[1],))
+                v = at(r)
+                if v is None:
+                    raise AnalysisError("envelope membership: result %s not evaluable" % show(r)[:80])
+                got = got and v == "1"
+            return got
+    else:
+        # form B: a value computed per wall (a local defined by a match / if chain, or an expression)
+        defs = {}
+        if tenv_node[0] == "var":
+            for l_, dd in local_defs(wsc, tenv_node[2]).items():
+                if l_ == tenv_node[1]:
+                    defs = {b_: n_ for b_, n_, ln_ in dd}
+        ctx.require(defs or tenv_node[0] != "var", "WallProps.is_tenv: definitions of `%s` not found" % (tenv_node[2] if tenv_node[0] == "var" else "?"))
+        pool = [wsc]
+
+        def member(at):
+            if defs:
+                start = TB.common_dominator(wsc.body, list(defs))
+                r = TB.walk_decision(wsc, start, at, set(defs)) if len(defs) > 1 else next(iter(defs))
+                if not isinstance(r, int):
+                    raise AnalysisError("envelope membership: cannot resolve the value of is_tenv (%s)" % (str(r)[:160],))
+                v = at(defs[r])
+            else:
+                v = at(tenv_node)
+            if v is None:
+                raise AnalysisError("envelope membership: value %s not evaluable" % show(defs[r] if defs else tenv_node)[:100])
+            return v == "1"
+    bad = []
+    ncase = 0
+    for bnd, ti, hn, ni in itertools.product(bt, (True, False), (True, False), (True, False)):
+        if not hn and ni:
+            continue
+        ncase += 1
+        got = member(make_atom(bnd, ti, hn, ni))
+        want = ti if bnd in ("EXTERIOR", "GROUND", "ADIABATIC") else (ti != (hn and ni))
+        if got != want:
+            bad.append("(%s, this inside=%s, adjacent space %s) -> %s" % (bnd, ti, ("inside" if ni else "outside") if hn else "not given", got))
+    if bad:
+        ctx.violation(rule, rule + "|envelope-membership", "envelope membership differs from the statement on %d of %d cases: %s" % (len(bad), ncase, "; ".join(bad[:3])), ep.loc(wln))
+    else:
+        ctx.ok(rule, rule + "|envelope-membership", "exterior/ground/adiabatic: this inside; interior: this inside != adjacent inside (%d cases)" % ncase, ep.loc(wln))
+    # missing space counts as outside: every `map_or(default, |s| s.inside_tenv)` in the function and its closures defaults to false
+    outs = []
+    for bf in [ep] + prog.closures_of(ep):
+        bsc = Scope(prog, bf)
+        for b, t in bf.body.calls():
+            if short_callee(callee_name(t) or "") == "map_or" and len(t["args"]) == 3:
+                cid = closure_id_of(strip(bsc.operand(t["args"][2])))
+                cf = prog.fns.get(cid)
+                if cf is None:
+                    continue
+                rns = returned_nodes(cf.body)
+                if len(rns) == 1 and (leaf_name(strip(Scope(prog, cf).operand({"c": 0}) if False else strip(rns[0][1]))) or "").endswith(".inside_tenv"):
+                    dflt = strip(bsc.operand(t["args"][1]))
+                    outs.append(dflt[0] == "k" and dflt[1] == "false")
+    if len(outs) >= 1 and all(outs):
+        ctx.ok(rule, rule + "|missing-space", "a missing space counts as outside the envelope (map_or(false, |s| s.inside_tenv) x%d)" % len(outs), ep.loc())
+    else:
+        ctx.violation(rule, rule + "|missing-space", "a missing (adjacent) space is no longer treated as outside (defaults: %s)" % outs, ep.loc())
+
 
 
 def run(ctx):
@@ -140,88 +286,7 @@ def run(ctx):
         ctx.ok("c11.term", "c11.term|compactness", "compactness = V_gross / A_exposed, 0 when the exposed area is 0", ep.loc())
     else:
         ctx.violation("c11.term", "c11.term|compactness", "compactness is not `gross volume / exposed area` guarded against a zero area", ep.loc())
-    # envelope membership
-    tw = None
-    for u in updates(root):
-        pass
-    twn = None
-    for x in walk(gl[0]):
-        pass
-    # the envelope set: the collection whose `contains(.., wall id)` feeds WallProps.is_tenv (a Vec, a BTreeSet, ..), built by a chain over model.walls
-    for sc in root.all_scopes():
-        for b, t in sc.body.calls():
-            from ..mir import callee_name
-            if short_callee(callee_name(t) or "") == "contains" and t["args"]:
-                recv = strip(sc.operand(t["args"][0]))
-                if recv[0] == "call" and short_callee(recv[1]) == "collect" and (iter_chain(recv).source_name() or "") == "model.walls":
-                    twn = recv
-    ctx.require(twn is not None, "the envelope wall set (a collect over model.walls used through contains) was not found")
-    ch = iter_chain(twn)
-    fcl = [c for (a, c) in ch.steps if a == "filter"]
-    ctx.require(len(fcl) >= 1 and all(a in ("iter", "filter", "map", "collect", "copied", "cloned") for a, _ in ch.steps), "the envelope wall set is not a filter chain over model.walls (%s)" % ch.adaptors())
-    fscs = [Scope(prog, prog.fns[closure_id_of(strip(c))], closure_env(strip(c)), ("elem", "W", ()), root) for c in fcl]
-    bt = [v["name"] for v in prog.adt("bemodel::types::common::BoundaryType")["variants"]]
-    bad = []
-    for bnd, ti, ni in itertools.product(bt, (True, False), (True, False)):
-        def atom(n, bnd=bnd, ti=ti, ni=ni):
-            n = strip(n)
-            if n[0] == "un" and n[1] == "Not":
-                v = atom(n[2])
-                return None if v is None else ("0" if v == "1" else "1")
-            if n[0] == "discr" and (leaf_name(strip(n[1])) or "").endswith(".bounds"):
-                return str(bt.index(bnd))
-            d = origin_desc(n)
-            # "is the space inside the envelope" lookups: map_or(false, ..) on a space lookup, or a local closure applied to a space id
-            if n[0] == "call" and (short_callee(n[1]) in ("map_or", "call", "is_some_and", "unwrap_or") or "{closure" in short_callee(n[1])):
-                full = show(n)
-                if "next_to" in full:
-                    return "1" if ni else "0"
-                if ".space" in full:
-                    return "1" if ti else "0"
-            if n[0] == "call" and short_callee(n[1]) in ("ne", "eq") and len(n[2]) == 2:
-                a = atom(n[2][0])
-                b2 = atom(n[2][1])
-                if a is not None and b2 is not None:
-                    r = (a != b2) if short_callee(n[1]) == "ne" else (a == b2)
-                    return "1" if r else "0"
-            if n[0] == "bin" and n[1] in ("Ne", "Eq", "BitAnd", "BitOr", "BitXor"):
-                a = atom(n[2])
-                b2 = atom(n[3])
-                if a is not None and b2 is not None:
-                    r = {"Ne": a != b2, "Eq": a == b2, "BitAnd": a == "1" and b2 == "1", "BitOr": a == "1" or b2 == "1", "BitXor": a != b2}[n[1]]
-                    return "1" if r else "0"
-            if n[0] == "k" and n[1] in ("true", "false"):
-                return "1" if n[1] == "true" else "0"
-            return None
-        got = True
-        for fsc in fscs:
-            r = TB.eval_return(fsc, atom)
-            if isinstance(r, tuple) and r and r[0] == "stuck":
-                raise AnalysisError("envelope membership: cannot evaluate for (%s, %s, %s): %s" % (bnd, ti, ni, r[1]))
-            v = atom(r)
-            if v is None:
-                raise AnalysisError("envelope membership: result %s not evaluable" % show(r)[:80])
-            got = got and v == "1"
-        want = ti if bnd in ("EXTERIOR", "GROUND", "ADIABATIC") else (ti != ni)
-        if got != want:
-            bad.append("(%s, this inside=%s, next inside=%s) -> %s" % (bnd, ti, ni, got))
-    if bad:
-        ctx.violation("c11.scope", "c11.scope|envelope-membership", "envelope membership differs from the statement on %d of 16 cases: %s" % (len(bad), "; ".join(bad[:3])), ep.loc())
-    else:
-        ctx.ok("c11.scope", "c11.scope|envelope-membership", "exterior/ground/adiabatic: this inside; interior: this inside != next inside (16 cases)", ep.loc())
-    # missing space counts as outside: every map_or default among the membership closures (and the local closures they use) is `false`
-    outs = []
-    pool = list(fscs) + [sc for sc in root.all_scopes() if sc.fn.kind == "closure" and any(sc.fn.id == closure_id_of(strip(v)) for f2 in fscs for v in f2.env.values() if closure_id_of(strip(v)))]
-    for fsc in pool:
-        for b, t in fsc.body.calls():
-            if short_callee(callee_name(t) or "") == "map_or":
-                dflt = strip(fsc.operand(t["args"][1]))
-                outs.append(dflt[0] == "k" and dflt[1] == "false")
-    if len(outs) >= 1 and all(outs):
-        ctx.ok("c11.scope", "c11.scope|missing-space", "a missing space counts as outside the envelope (map_or(false, ..) x%d)" % len(outs), ep.loc())
-    else:
-        ctx.violation("c11.scope", "c11.scope|missing-space", "a missing (adjacent) space is no longer treated as outside", ep.loc())
-
+    check_envelope_membership(ctx, prog, ep, root)
     # D3 ventilation siblings
     gv = g["global_ventilation_rate"]
     mv = prog.method("types::model::Model", None, "global_ventilation_rate")
